@@ -107,6 +107,7 @@ def random_case(rng, tier):
             "start": rng.choice(["fresh", "read"])}
 
 
+NEW_NAME_SHAPES = ["N%d", "N%d", "_n%d", "N %d", "Ñ%d", "%d", "n%d", "N-%d", "N%d"]      # new (unique) names of several shapes
 META_VALUES = ["v", 0, 7, 0.0, "", "0", 45.5, -0.0, "45 310 01 00"]
 
 
@@ -166,7 +167,7 @@ class Run:
     def name(self, kind):
         if kind == "new":
             self.newnames += 1
-            return "N%d" % self.newnames
+            return NEW_NAME_SHAPES[self.newnames % len(NEW_NAME_SHAPES)] % self.newnames
         if kind == "dup":
             return self.m.c[0]["orig"] if self.m.c else "D"
         if kind == "blank":
